@@ -161,7 +161,35 @@ def run():
         compared += 1
         if got != want and not (isinstance(want[1], float) and isinstance(got[1], (int, float)) and abs(want[1] - got[1]) < 1e-9):
             bad.append(f'{name}: CPython {want!r}, executor {got!r}')
-    return compared, skipped, bad
+    n_sl, bad_sl = symlist_lengths()
+    return compared + n_sl, skipped, bad + bad_sl
+
+
+def symlist_lengths():
+    """lists of symbolic length (pyvc/symlist.py): the length formulas of slicing, extend, append, `[c] * k` and of the condition-free comprehension are evaluated
+    for concrete lengths / bounds and compared with CPython"""
+    import itertools
+    import z3
+    from .symlist import symlist, SymListModel as M, repeat
+    bad, n_cmp = [], 0
+    val = lambda e: z3.simplify(e if isinstance(e, z3.ExprRef) else z3.IntVal(e)).as_long()
+    for n, lo, hi in itertools.product(range(5), (None, -6, -2, -1, 0, 1, 3, 6), (None, -6, -2, -1, 0, 1, 3, 6)):
+        got = val(M.op_getslice(None, symlist(z3.IntVal(n), lambda: 0), lo, hi, None).f['n'])
+        want = len(list(range(n))[lo:hi])
+        n_cmp += 1
+        if got != want:
+            bad.append(f'symlist: len(L[{lo}:{hi}]) for len(L) == {n}: CPython {want}, executor {got}')
+    for n, k in itertools.product(range(4), range(-2, 4)):
+        a = symlist(z3.IntVal(n), lambda: 0)
+        M.m_extend(None, a, repeat(None, [0], z3.IntVal(k)))
+        M.m_append(None, a, 1)
+        want = list(range(n))
+        want.extend([0] * k)
+        want.append(1)
+        n_cmp += 1
+        if val(a.f['n']) != len(want):
+            bad.append(f'symlist: extend([0] * {k}) + append on a list of {n}: CPython {len(want)}, executor {val(a.f["n"])}')
+    return n_cmp, bad
 
 
 if __name__ == '__main__':
